@@ -206,8 +206,11 @@ LEVEL_NOTE = ("Trace events: a<k> is recorded by the interposed accept() when it
               "handle before the thread runs; observed under ASan only), and destruction of a concurrent-mode server WITHOUT "
               "stop(true) (the destructor stops and joins the accept thread but does not wait for the handlers: outside the property, "
               "see outside_findings.txt). Trusted: POSIX socket semantics, atomic plain-bool flags, the recording harness and acceptor. The traces come from OS "
-              "scheduling with injected jitter, not from exhaustive enumeration; liveness (stop(true) eventually returns) is not "
-              "claimed. Not modelled (observed by the harness oracles and ASan only): the reference-counted Socket handle staying "
+              "scheduling with injected jitter, not from exhaustive enumeration; liveness is claimed for the model only: from every reachable state in which stop(true) "
+              "is pending the server's own threads can bring it to its return in at most mu steps, each enabled and strictly decreasing mu "
+              "(stop_sync_terminates, stop_sync_progress: no deadlock, no livelock, no new connection needed) - a possibility under a fair "
+              "scheduler; that the OS schedules those threads and that select() wakes within its 0.5 s period is not modelled (every harness "
+              "history does wait for stop(true) to return, under a time limit). Not modelled (observed by the harness oracles and ASan only): the reference-counted Socket handle staying "
               "valid during serve(), several listening sockets and the activeAt(i) batch of one select round. A failed accept() is "
               "one atomic model step that leaves the state alone (the 10 ms pause is not modelled). Connections whose token never "
               "arrives (client closed early) are judged for exactly-once by the trace acceptor only.")
